@@ -5,6 +5,7 @@ mod enc;
 mod c09;
 mod c10;
 mod c11;
+mod c12;
 mod wmodel;
 mod c13;
 mod c14;
@@ -17,6 +18,7 @@ mod c05;
 mod dieasm;
 mod c06;
 mod linemodel;
+mod sem;
 mod c07;
 mod c08;
 mod cfimodel;
@@ -26,7 +28,7 @@ use crate::core::{Prop, Tier};
 use std::path::Path;
 
 pub fn props() -> Vec<&'static dyn Prop> {
-    vec![&c02::C02, &c03::C03, &c04::C04, &c05::C05, &c06::C06, &c07::C07, &c08::C08, &c09::C09, &c10::C10, &c11::C11, &c13::C13, &c14::C14, &c15::C15, &c16::C16]
+    vec![&c02::C02, &c03::C03, &c04::C04, &c05::C05, &c06::C06, &c07::C07, &c08::C08, &c09::C09, &c10::C10, &c11::C11, &c12::C12, &c13::C13, &c14::C14, &c15::C15, &c16::C16]
 }
 
 pub fn find(id: &str) -> Option<&'static dyn Prop> {
